@@ -147,6 +147,32 @@ func c08(c *Ctx) {
 	if n := checkCancelledFlagOnlyByCancel(p, r, "C08.R6", nil); n == 0 {
 		r.Und("C08.R6", "cancelled flags", "", "no Canceled() method returning a flag field found")
 	}
+	// the zero value stands in for the captured original only where the captured original is the invalid Value (the variable
+	// held the nil interface): reflect.Zero feeds the write-back only on the false side of an IsValid() test
+	for _, f := range p.FuncsIn("") {
+		if f.Blocks == nil || f.Name() != "Cancel" {
+			continue
+		}
+		eachInstr(f, func(i ssa.Instruction) {
+			cl, ok := i.(*ssa.Call)
+			if !ok || calleeName(cl.Common()) != "reflect.Zero" {
+				return
+			}
+			okSide, tested := false, false
+			for _, g := range guardsAt(cl.Block()) {
+				if vc, isCall := g.Cond.(*ssa.Call); isCall && calleeName(vc.Common()) == "(reflect.Value).IsValid" {
+					tested = true
+					if !g.Pol {
+						okSide = true
+					}
+				}
+			}
+			if tested {
+				r.Check(okSide, "C08.R3", "zero value substituted only for an invalid original in "+shortName(f), p.Pos(posOf(cl)), "reflect.Zero on the !IsValid() side",
+					"the zero value is written back where the captured original is a valid value (and the invalid one is handed to Set where it is not): Cancel/Reset sets the variable to its zero value instead of the value it had before the first mock")
+			}
+		})
+	}
 	r.Floor("C08.R1", 1)
 	r.Floor("C08.R2", 1)
 	r.Floor("C08.R3", 1)
